@@ -16,6 +16,12 @@ class UserLink(SymlinkNodeMixin):
         self.parent = parent
 
 
+class Shortcut(SymlinkNode):
+    """a user subclass of the link class with a class-level attribute of its own: reading `kind` on such a link - or on a
+    link TO such a link - is answered by this class (ordinary attribute lookup on the link), not forwarded further"""
+    kind = "shortcut"
+
+
 class ROAny(AnyNode):
     """a target class with a read-only (getter-only) property: assigning `ro` raises AttributeError"""
     ro = property(lambda self: 42)
@@ -97,6 +103,8 @@ def impl(case):
             elif k == "link":
                 kw = {a: vals.obj(b) for a, b in op["kw"]}
                 cls = UserLink if (case.get("userlink") and not kw) else SymlinkNode
+                if op.get("cls") == "user":
+                    cls = Shortcut
                 objs.append(cls(objs[op["t"]], **kw))
             elif k == "set":
                 setattr(objs[op["i"]], op["k"], vals.obj(op["v"]))
